@@ -158,6 +158,32 @@ pub fn check_state(cx: &mut CaseCx, s: &pp::Server, path: &[u8], c: &Ctx, deep: 
         cx.viol("C11/importer-key-material-differs", format!("a {} that imported the state holds different key material than the exporter", who), d(json!({"importer": who})));
       }
       cx.count("imports_checked", 1);
+      // the importer goes on puncturing: inputs it had punctured under its OLD key (live again in the adopted
+      // state) and an input that was never touched - the puncture must take effect on the adopted key
+      let mut again: Vec<u8> = path.iter().flat_map(|&x| [x ^ 0x80, x ^ 0x40, x ^ 0x01]).filter(|y| !p.has(*y)).take(3).collect();
+      again.push((0..=255u8).rev().find(|y| !p.has(*y)).unwrap_or(0));
+      for y in again {
+        if p.has(y) {
+          continue;
+        }
+        let mut t2 = target.clone();
+        cx.eval();
+        if guard(|| t2.puncture(y).is_ok()) != Ok(true) {
+          cx.viol("C11/puncture-failed/after-import", format!("a {} that imported the state cannot puncture the live input {}", who, y), d(json!({"importer": who, "input": y})));
+          continue;
+        }
+        let covered = hook_nodes(t2.verif_pprf()).map(|x| x.0).unwrap_or_default().iter().any(|(n, _)| n.covers(y));
+        let mut o = [0u8; 32];
+        let evaluates = {
+          use ppoprf::PPRF;
+          guard(|| t2.verif_pprf().eval(&[y], &mut o).is_ok()) == Ok(true)
+        };
+        if covered || evaluates {
+          cx.viol("C11/retained-node-on-punctured-path/after-import", format!("a {} imported the state and then punctured input {}: the puncture reported success but the key still {} (an input the importer had punctured under its old key is live again in the adopted state and must be puncturable there)", who, y, if evaluates { "evaluates it" } else { "retains a node on its path" }), d(json!({"importer": who, "input": y})));
+          return;
+        }
+        cx.count("importer_punctures_take_effect", 1);
+      }
     }
     // through the public evaluation interface as well: a follower that answered for a tag just before it
     // imports the post-puncture state must refuse that tag right afterwards (no per-tag value may survive)
